@@ -133,11 +133,15 @@ def impl_fas2values(re, im, dt, as_signal=None):
     return np.array(r)
 
 
-def impl_max_fa_period(cls, x, dt):
+def impl_max_fa_period(cls, x, dt, pre=None):
+    """pre = ['p2_plus', p] / ['n', N]: the object's spectrum is first generated with that (public) option; the dominant
+    period is then the one of the largest bin of the spectrum the object reports"""
     import eqsig
     sig = getattr(eqsig, cls)(np.array(x, dtype=float), dt)
     with warnings.catch_warnings():
         warnings.simplefilter('ignore')
+        if pre is not None:
+            sig.gen_fa_spectrum(**{pre[0]: pre[1]})
         p = eqsig.im.max_fa_period(sig)
         return np.array(sig.fa_spectrum), np.array(sig.fa_frequencies), float(p)
 
@@ -146,7 +150,7 @@ def replay_call(rp):
     a = rp.get('args', {})
     f = rp.get('function', '')
     if 'max_fa_period' in f:
-        return impl_max_fa_period(a.get('cls', 'AccSignal'), a['values'], a['dt'])[2]
+        return impl_max_fa_period(a.get('cls', 'AccSignal'), a['values'], a['dt'], a.get('after_gen_fa_spectrum'))[2]
     if 'fas2' in f and 're' in a:
         return impl_fas2values(a['re'], a['im'], a['dt'])
     if 'values' in a and 'which' in a:
@@ -577,8 +581,13 @@ def run(rep, rng, tier):
         else:
             x = tol_record(rng, npts)
         cls = 'AccSignal' if k % 4 else 'Signal'
-        r = guarded(impl_max_fa_period, cls, x, dt)
-        args = {'cls': cls, 'values': [float(v) for v in x], 'dt': float(dt)}
+        pre = None
+        if k % 3 == 1:
+            pre = ['p2_plus', rng.choice([1, 2, 3])]
+        elif k % 3 == 2 and npts >= 4:
+            pre = ['n', rng.choice([npts, npts + rng.randint(1, 2 * npts), 2 * (npts // 2) + 2])]
+        r = guarded(impl_max_fa_period, cls, x, dt, pre)
+        args = {'cls': cls, 'values': [float(v) for v in x], 'dt': float(dt), 'after_gen_fa_spectrum': pre}
         if isinstance(r, ImplError):
             if npts >= 2:
                 bad('max_fa_period', args, r)
@@ -594,7 +603,7 @@ def run(rep, rng, tier):
             continue
         out = 'None' if math.isinf(per) else '(Some %s)' % q(per)
         coq = 'CMaxPer %s %s %s %s %s' % (qlist(fa.real), qlist(fa.imag), qlist(fr), out, q(Fraction(1, 10 ** 14)))
-        cases.append(Case(coq, {'function': 'eqsig.im.max_fa_period', 'args': args, 'impl': repr(per)}, 'max_fa_period',
+        cases.append(Case(coq, {'function': 'eqsig.im.max_fa_period', 'args': args, 'impl': repr(per)}, 'max_fa_period' + ('[after gen_fa_spectrum(%s)]' % pre[0] if pre else ''),
                           nontrivial=bool(np.any(x != 0)), klass='max_fa_period/' + ('inf' if math.isinf(per) else 'finite')))
 
     rep.correspond('model.K_C06', 'check_case', cases, describe='model_out (%s)', extra_imports='From EQ Require Import lib.Dft model.M_fourier.\n')
